@@ -1110,6 +1110,20 @@ def move_imports_to_toplevel(source: str) -> str:
             yield r, None, transaction
 
 
+def _names_bound_elsewhere(funcdef: ast.FunctionDef) -> Collection[str]:
+    """Names that are written in a function, and that it does not bind itself."""
+    bound = {arg.arg for arg in core.walk(funcdef, ast.arg)}
+    bound.update(name.id for name in core.walk(funcdef, ast.Name(ctx=(ast.Store, ast.Del))))
+    bound.update(
+        node.name
+        for node in core.walk(funcdef, (ast.FunctionDef, ast.AsyncFunctionDef, ast.ClassDef))
+    )
+    for node in core.walk(funcdef, (ast.Global, ast.Nonlocal)):
+        bound.difference_update(node.names)
+
+    return {name.id for name in core.walk(funcdef, ast.Name)} - bound
+
+
 def remove_duplicate_functions(source: str, preserve: Collection[str]) -> str:
     """Remove duplicate function definitions.
 
@@ -1124,7 +1138,9 @@ def remove_duplicate_functions(source: str, preserve: Collection[str]) -> str:
     function_defs = collections.defaultdict(set)
 
     for node in core.filter_nodes(root.body, ast.FunctionDef):
-        function_defs[abstractions.hash_node(node, preserve)].add(node)
+        # Only what the function binds itself may differ, not what it takes from around it.
+        names = set(preserve) | _names_bound_elsewhere(node)
+        function_defs[abstractions.hash_node(node, names)].add(node)
 
     delete = set()
     renamings = {}
